@@ -51,6 +51,15 @@ func crashesOf(t *Trace) []*crashInfo {
 	return out
 }
 
+// invFailedForGood: the invocation failed in a way the engine observed (it
+// returned a failure, or its deadline passed), as opposed to being cut by a crash.
+func invFailedForGood(in *Inv) bool {
+	if !in.Ended || in.Succeeded() {
+		return false
+	}
+	return in.ExitSeq >= 0 || (in.Deadline > 0 && in.EndT == in.Deadline)
+}
+
 func attemptOK(st ObjState) bool {
 	for _, a := range st.Attempts {
 		if a.Err == nil {
@@ -326,7 +335,7 @@ func oracleC10(t *Trace, v *vset) {
 			case StFailed:
 				bad := false
 				for _, in := range invs {
-					if in.ExitSeq >= 0 && in.FailedInv() || (in.Ended && in.ExitSeq < 0 && in.EndT == in.Deadline) {
+					if invFailedForGood(in) {
 						bad = true
 					}
 				}
@@ -345,7 +354,7 @@ func oracleC10(t *Trace, v *vset) {
 			for g, r := range map[string]int{"pre": frPre, "cont": frCont, "post": frPost, "deferred": frDeferred} {
 				for _, a := range l.GroupActions(pp, g) {
 					for _, in := range t.ByPath[a.Path] {
-						if in.FailedInv() && in.ExitSeq >= 0 || in.CtxDone {
+						if invFailedForGood(in) {
 							allowed[r] = true
 						}
 					}
